@@ -78,7 +78,7 @@ type C15 struct {
 func (e *C15) ID() string    { return "C15" }
 func (e *C15) Level() string { return "exploration" }
 func (e *C15) Rule() string {
-	return "each case is one input x (valid, truncated or malformed file, as in C08) run through its natural entry points: first with the library's default loggers (the values the packages hold before any SetLogger call) while the sizes of the worker's file descriptors 1 and 2 (redirected to files by the driver) are sampled before and after the call; then under imagemeta.SetLogger(w, L) for every level L in {trace, debug, info, warn, error, fatal, panic, disabled, no-level} with a writer w drawn from {buffer, io.Discard, short-write, failing}; pristine library state before every call. Oracle: observation under every configuration equals the default one; no panic; fd 1/2 do not grow during default-configuration calls. Non-trivial: the non-default configuration emitted at least one log event for that input; distinct = (entry, level, writer, outcome class)."
+	return "each case is one input x (valid, truncated or malformed file, as in C08) run through its natural entry points: first with the library's default loggers (the values the packages hold before any SetLogger call) while the sizes of the worker's file descriptors 1 and 2 (redirected to files by the driver) are sampled before and after the call; then under imagemeta.SetLogger(w, L) for every level L in {trace, debug, info, warn, error, fatal, panic, disabled, no-level} with a writer w drawn from {buffer, io.Discard, short-write, failing}, a third of the time wrapped in a zerolog.ConsoleWriter value (an uncomparable struct type, what the library installs itself), the configuration installed once or twice in a row; pristine library state before every call. Oracle: observation under every configuration equals the default one; no panic; fd 1/2 do not grow during default-configuration calls. Non-trivial: the non-default configuration emitted at least one log event for that input; distinct = (entry, level, writer, outcome class)."
 }
 func (e *C15) Assumptions() []string {
 	return []string{"zerolog reports writer failures on os.Stderr by design; stderr is therefore only required to stay silent under the default configuration",
@@ -123,9 +123,28 @@ func (e *C15) Run(c *core.Ctx, idx int) {
 		}
 		for li, lvl := range logLevels {
 			w := &countWriter{mode: (li + idx + r.Intn(2)) % 4}
-			imagemeta.SetLogger(w, lvl)
+			// the writer is handed over as it is, or wrapped in a value of a struct type with slice
+			// and func fields (zerolog.ConsoleWriter, the kind of writer the library installs
+			// itself); the configuration is installed once or twice in a row (a caller that
+			// re-installs its configuration before every file)
+			var lw io.Writer = w
+			wrap := (li+idx)%3 == 0
+			if wrap {
+				lw = zerolog.ConsoleWriter{Out: w, NoColor: true, PartsOrder: []string{"level", "message"}}
+			}
+			twice := (li+idx/3)%2 == 0
+			if pk, key, text := core.Guard(func() {
+				imagemeta.SetLogger(lw, lvl)
+				if twice {
+					imagemeta.SetLogger(lw, lvl)
+				}
+			}); pk {
+				c.Rec.Violation("log:setlogger:"+key, fmt.Sprintf("SetLogger(level=%s, console-writer=%v, installed twice=%v) panicked: %s", lvl.String(), wrap, twice, firstLineOf(text)), map[string]any{"panic": text})
+				restoreDefaults()
+				continue
+			}
 			imagemeta.VerifResetState()
-			what := fmt.Sprintf("level=%s writer=%d", lvl.String(), w.mode)
+			what := fmt.Sprintf("level=%s writer=%d console=%v twice=%v", lvl.String(), w.mode, wrap, twice)
 			c.SetPhase("entry=" + ent.Name + " " + what + " " + desc)
 			var got string
 			pk, key, text := core.Guard(func() { got = ent.Run(mon.NewRS(data)) })
